@@ -812,3 +812,12 @@ pub fn cmp_any<T>(_: &T, _: &T) -> Ordering { Ordering::Equal }
 pub fn hash_any<T, H: Hasher>(_: &T, _: &mut H) {}
 pub fn make_any<T>() -> T { unreachable!() }
 pub fn into_any<T, U>(_: T) -> U { unreachable!() }
+
+// ------------------------------------------------------------------------------------------
+// C12: a where-clause the type needs in order to be well-formed
+pub trait Assoc {
+    type Out: fmt::Debug + Clone + PartialEq + Default;
+}
+impl Assoc for u8 {
+    type Out = u16;
+}
